@@ -15,7 +15,8 @@ COQ_FILES = ["gen/Facts_COTree.v", "Rows/COTree.v", "Rows/SparseTree.v", "Rows/C
              "Rows/Abs.v", "Rows/Dense.v", "Rows/Sparse.v", "Rows/Expr.v", "Rows/RowsFacts.v"]
 OPTIONAL_COQ = ["Rows/COTreeBase.v", "Rows/COTreeSearch.v", "Rows/COTreeStatic.v", "Rows/COTreeHint.v",
                 "Rows/COTreeDens.v", "Rows/COTreeIter.v", "Rows/COTreeUpdate.v", "Rows/COTreeEraseLb.v",
-                "Rows/DenseProofs.v", "Rows/SparseProofs.v", "Rows/ExprProofs.v", "Rows/COTreeMain.v"]
+                "Rows/DenseProofs.v", "Rows/SparseProofs.v", "Rows/ExprProofs.v", "Rows/COTreeMain.v",
+                "Rows/COTreeFull.v", "Rows/C16Final.v"]
 WORK = os.path.join(common.BUILD, "c16-work")
 
 
